@@ -38,8 +38,16 @@ func (k Keeper) GetModuleAccountAndPermissions(ctx sdk.Ctx, moduleName string) (
 	if acc != nil {
 		macc, ok := acc.(exported.ModuleAccountI)
 		if !ok {
-			fmt.Println("account that is retrieved is not a module account")
-			return types.ModuleAccount{}, []string{}
+			// coins reached the module's address before its account was created, so a plain account holds them:
+			// turn it into the module account, keeping its coins
+			newMacc := types.NewEmptyModuleAccount(moduleName, perms...)
+			if err := newMacc.SetCoins(acc.GetCoins()); err != nil {
+				fmt.Println("could not carry the coins over to the module account: " + err.Error())
+				return nil, []string{}
+			}
+			maccI := (k.NewAccount(ctx, newMacc)).(exported.ModuleAccountI) // set the account number
+			k.SetModuleAccount(ctx, maccI)
+			return maccI, perms
 		}
 		return macc, perms
 	}
